@@ -5,6 +5,7 @@ import copy
 import datetime
 import enum
 import inspect
+import json
 import uuid
 
 from specmc import gen, wire
@@ -181,6 +182,11 @@ def _doc(kind, value, route, pos, lit, req="opt"):
         elif route == "allof-override":
             comps["Base"] = {"type": "object", "properties": {"p": copy.deepcopy(base), "other": {"type": "integer"}}}
             comps["M"] = {"allOf": [{"$ref": "#/components/schemas/Base"}, {"type": "object", "properties": {"p": with_default(base)}}]}
+        elif route == "second-use-of-enum-class":
+            # two inline enums under one parent that resolve to ONE generated class (same title, same values): each keeps its own default
+            first = dict(copy.deepcopy(base), title="Shared Kind", default=ENUM_VALUES[kind][1])
+            mine = dict(copy.deepcopy(base), title="Shared Kind", default=copy.deepcopy(value))
+            comps["M"] = {"type": "object", "properties": {"first_use": first, "p": mine, "third_use": dict(copy.deepcopy(base), title="Shared Kind"), "other": {"type": "integer"}}}
         elif route in ("allof-redescribed", "allof-redescribed-camel"):
             # inherited WITH its default, re-declared by a later member that only adds a description: the default is still the property's
             pn = "p" if route == "allof-redescribed" else "pageSize"
@@ -193,8 +199,9 @@ def _doc(kind, value, route, pos, lit, req="opt"):
     else:
         if route not in ("direct", "ref-wrapper", "nullable30-wrapper"):
             return None
+        comps["Out"] = {"type": "object", "properties": {"ok": {"type": "boolean"}}}
         paths["/x"] = {"get": {"operationId": "theOp", "parameters": [{"name": "p", "in": pos, "required": False, "schema": sch}],
-                               "responses": {"204": {"description": "n"}}}}
+                               "responses": {"200": {"description": "d", "content": {"application/json": {"schema": {"$ref": "#/components/schemas/Out"}}}}}}}
     return gen.base_doc(comps or None, paths=paths, version="3.0.3" if route == "nullable30-wrapper" else "3.1.0")
 
 
@@ -206,11 +213,13 @@ def cases(tier):
     for kind in KINDS:
         t = table(kind)
         for label in t:
-            for route in ("direct", "ref-wrapper", "allof-override", "allof-inherit", "nullable30-wrapper", "allof-redescribed", "allof-redescribed-camel"):
+            for route in ("direct", "ref-wrapper", "allof-override", "allof-inherit", "nullable30-wrapper", "allof-redescribed", "allof-redescribed-camel", "second-use-of-enum-class"):
                 for pos in ("model", "query", "header", "cookie"):
                     if pos != "model" and (kind not in PARAM_KINDS or route not in ("direct", "ref-wrapper", "nullable30-wrapper")):
                         continue
                     if route in ("ref-wrapper", "nullable30-wrapper") and kind in ("union", "any", "const", "enum_str_oneofnull", "enum_str_null", "enum_int_null"):
+                        continue
+                    if route == "second-use-of-enum-class" and (kind not in ("enum_str", "enum_int") or pos != "model"):
                         continue
                     if route.startswith("allof-redescribed") and (kind in ("union", "any", "const") or kind.endswith("null") or t[label][0] != V):
                         continue
@@ -299,7 +308,16 @@ def run_case(p):
                     mod = wire.endpoint_module(sb, ep)
                     par = inspect.signature(mod.sync_detailed).parameters[lst[0]["py"]]
                     got_py = par.default
-                    cap = wire.Capture(lambda request: __import__("httpx").Response(204))
+                    cap = wire.Capture(lambda request: __import__("httpx").Response(200, json={"ok": True}))
+                    sent = {}
+                    for variant in wire.VARIANTS:      # the plain variants forward their own arguments to the detailed ones
+                        rv = wire.call(mod, variant, lambda: wire.make_client(sb, cap), cap, {})
+                        if rv is not None and rv["ok"] and rv["requests"]:
+                            qv = rv["requests"][0]
+                            sent[variant] = ([v for k, v in qv["query"] if k == "p"] if pos == "query" else [v for k, v in qv["headers"] if k == "p"] if pos == "header" else
+                                             ([qv["cookies"]["p"]] if "p" in qv["cookies"] else []))
+                    if len({json.dumps(v) for v in sent.values()}) > 1:
+                        viol.append({"oracle": "variants-differ", "site": pos, "key": key, "detail": f"omitting the argument: the call variants transmit {sent!r}"})
                     r = wire.call(mod, "sync_detailed", lambda: wire.make_client(sb, cap), cap, {})
                     if r["ok"] and r["requests"]:
                         q = r["requests"][0]
